@@ -71,3 +71,32 @@ func vEncFixed(c byte, form int) string {
 	}
 	return s
 }
+
+// HNameNulRunT (C11): a run of `run` NUL bytes inserted at any interior position of a baseline name changes neither the
+// classifier's answer nor the verdict of the vector built from it (length cut-offs applied before NUL removal).
+func HNameNulRunT(kind int, idx int, run int) {
+	var name string
+	switch kind {
+	case 0:
+		name = "on" + vBaseEvents[idx]
+	case 1:
+		name = vBaseBlacks[idx].name
+	case 2:
+		name = vBaseTags[idx]
+	}
+	a := vName(name, 0)
+	k := vIntIn(1, len(name)-1)
+	nuls := ""
+	for i := 0; i < run; i++ {
+		nuls += "\x00"
+	}
+	c := a[:k] + nuls + a[k:]
+	if kind == 2 {
+		vAssert(isBlackTag(a) == isBlackTag(c), "NULs inside a tag name do not change its classification")
+		vAssert(IsXSS("<"+a+">") == IsXSS("<"+c+">"), "NULs inside the element name do not change the verdict")
+	} else {
+		vAssert(isBlackAttr(a) == isBlackAttr(c), "NULs inside an attribute name do not change its classification")
+		vAssert(IsXSS("<a "+a+"=x>") == IsXSS("<a "+c+"=x>"), "NULs inside the attribute name do not change the verdict")
+	}
+	vCover("checked")
+}
